@@ -1,4 +1,4 @@
-#!/bin/sh
+#!/bin/bash
 # usage: tools/refcheck.sh <diff> : applies a behaviour-preserving refactoring to a scratch worktree and
 # runs every claimed check; any non-zero exit is a false alarm.
 here=$(cd "$(dirname "$0")/.." && pwd)
@@ -6,6 +6,9 @@ d=$(realpath "$1")
 props=$(python3 -c "import json;print(' '.join(c['property_id'] for c in json.load(open('$here/MANIFEST.json'))['checks']))")
 wt=/tmp/wt/rc-$$
 git -C /repo worktree add --detach -q "$wt" HEAD || exit 2
+out=""
+trap 'rm -rf "$out"; git -C /repo worktree remove --force "$wt" 2>/dev/null' EXIT
+trap 'exit 1' PIPE INT TERM
 if ! git -C "$wt" apply "$d" 2>/dev/null && ! git -C "$wt" apply --3way "$d" >/dev/null 2>&1; then echo "$1 APPLY-FAILED"; git -C /repo worktree remove --force "$wt"; exit 3; fi
 out=$(mktemp -d /tmp/rcout.XXXXXX)
 alarms=""
